@@ -54,6 +54,10 @@ func StrictHeader(mimeType string) Framing {
 	}
 }
 
+// maxPrealloc is the largest message size for which Recv allocates its
+// (reusable) buffer up front from the Content-Length header.
+const maxPrealloc = 1 << 24
+
 // A ContentTypeMismatchError is reported by the Recv method of a [Header]
 // framing when the content type of the message does not match the type
 // expected by the channel.
@@ -134,6 +138,21 @@ func (h *hdr) Recv() ([]byte, error) {
 	size, err := strconv.Atoi(contentLength)
 	if err != nil || size < 0 {
 		return nil, errors.New("invalid content-length")
+	}
+
+	if size > maxPrealloc {
+		// Do not size a buffer from a length the peer merely claims: a huge
+		// or overflowing Content-Length must be an error when the data do not
+		// arrive, not an allocation failure. Read large messages
+		// incrementally, so that memory grows only with the bytes received.
+		var buf bytes.Buffer
+		if _, err := io.CopyN(&buf, h.rd, int64(size)); err != nil {
+			if err == io.EOF && buf.Len() != 0 {
+				err = io.ErrUnexpectedEOF
+			}
+			return nil, err
+		}
+		return buf.Bytes(), contentErr
 	}
 
 	// We need to use ReadFull here because the buffered reader may not have a
